@@ -3,6 +3,7 @@ package worldc
 import (
 	"encoding/json"
 	"fmt"
+	"os"
 	"runtime/debug"
 	"sort"
 	"strings"
@@ -405,6 +406,12 @@ func execC20(t *testing.T, raw json.RawMessage) *sim.Outcome {
 		})
 	})
 	s.Run()
+	if os.Getenv("VERIF_DEBUG_TASKS") != "" {
+		for _, tk := range s.Tasks() {
+			bl, on := tk.IsBlocked()
+			fmt.Fprintf(os.Stderr, "task %s daemon=%v done=%v blocked=%v on=%v\n", tk.Name, tk.Daemon, tk.IsDone(), bl, on)
+		}
+	}
 	o.Interleaving = s.OrderHash()
 	o.Recorded = mustJSON(c20WithChoices(p, s.Choices))
 	if initErr != "" {
